@@ -15,9 +15,11 @@ class RD(SeqCheck):
             "newest accepted number (window edges, word edges, replays, 0, max, max+1, half space +-3); a history is "
             "non-trivial when at least two numbers were accepted and at least one check was refused; a sixth of the histories "
             "exercise the bitmap itself: 10-70 Lsh (0, 1, word multiples +-1, window +-1, 2^40, random) / SetBit / Bit operations on "
-            "windows 0-400, every word compared; distinct = distinct (configuration, operation list)")
-    trusted = ["closure discipline: accept() is called at most once, immediately after its Check (the only use the API documents)"]
-    assumptions = ["callbacks kept and invoked after a later Check are outside the quantifier",
+            "windows 0-400, every word compared; plain detector: in a third of the histories a third of the checks keep their callback, which "
+            "a later operation invokes (one of the four most recent kept ones, possibly again); distinct = distinct (configuration, operation list)")
+    trusted = ["wrapping detector: accept() is called at most once, immediately after its Check (the only use the API documents)"]
+    assumptions = ["wrapping detector: callbacks kept and invoked after a later Check are outside the quantifier; plain detector: a third of the "
+                   "histories keep callbacks and invoke them later, in any order, also twice (theorem C04_plain_no_replay_any_order)",
                    "Go uint is 64 bit (amd64)"]
 
     def is_nontrivial(self, conf, ops, obs):
